@@ -1841,6 +1841,10 @@ func handleClientMessage(c *webClient, m clientMessage) error {
 			if err != nil {
 				return terror("error", err.Error())
 			}
+			if old.Group != c.group.Name() {
+				// don't reveal tokens of other groups
+				return terror("error", os.ErrNotExist.Error())
+			}
 			t := old.Clone()
 			if tok.Expires != nil {
 				t.Expires = tok.Expires
